@@ -66,11 +66,11 @@ def zero_count_specs():
 
 
 def specs(tier: str):
-    return zero_count_specs() + families.skip_specs("zero", tier) + families.metachar_specs("zero", tier) + families.builtin_specs("zero", tier) + families.recursive_specs("zero", tier, stack=True) + families.c01_specs(tier, kmode="zero", extra_trivia=("cm_nonatomic",)) + recursive_specs()
+    return zero_count_specs() + families.skip_specs("zero", tier) + families.metachar_specs("zero", tier) + families.builtin_specs("zero", tier) + families.recursive_specs("zero", tier, stack=True) + families.c01_specs(tier, kmode="zero", extra_trivia=("cm_nonatomic",), lean=True) + recursive_specs()
 
 
 def run(tier: str) -> int:
-    b = families.C01_BOUNDS[tier]
+    b = families.c01_bounds(tier, lean=True)
     return gc.run_model_check(
         C07(), specs(tier), tier, "exploration",
         bounds=[{"top": [{"n": n, "modifiers": list(m), "trivia": list(t)} for n, m, t in b["top"]], "contexts": [{"hole_size": h, "trivia": list(t)} for h, t in b["ctx"]], "max_inputs_per_rule": b["max_inputs"]}],
